@@ -17,7 +17,10 @@ def H(**kw):
     kw.setdefault("tier", "quick")
     kw.setdefault("timeout", 900)
     kw.setdefault("mem_gb", 6)
-    kw.setdefault("replay", "playback")
+    # 'playback': no nondeterministic environment model in the way => the solver's assignment is re-executed natively.
+    # 'model'   : the harness depends on an environment model (ideal AEAD table, recorders returning fresh values);
+    #             a counterexample is reported from the model run, with the assignment saved in the witness file.
+    kw.setdefault("replay", "model" if kw["name"].startswith(("enc_", "dec_", "hdr_", "noise_", "cmd_", "c18_blockmix", "c18_romix", "c18_envelope")) else "playback")
     if "mod" not in kw:
         n = kw["name"]
         kw["mod"] = ("encrypt::verif_enc" if n.startswith("enc_") else "decrypt::verif_dec" if n.startswith("dec_")
@@ -107,6 +110,40 @@ H(name="dec_short_reads_cs1", crate="kestrel-crypto", props=["C10", "C01"], est_
   desc="the authentic stream delivered in solver-chosen short reads (1..8 bytes), std's real read_exact loop: same result",
   funcs=DEC_FUNCS + ["std::io::Read::read_exact (std)"], bounds="chunk size 1, one chunk of 0..1 byte", env=[E_AEAD, E_ZERO], outside="longer files (read_exact is std code)")
 
+# ------------------------------------------------------------------ H-HDR (header level)
+HDR_ENV = ["noise_encrypt/noise_decrypt, hkdf_sha256, scrypt::scrypt, secure_random and the chunk loop replaced by recorders returning fresh unconstrained values (their own conformance: H-NOISE, C19, C18, H-ENC/H-DEC)", E_ZERO]
+H(name="hdr_key_encrypt", crate="kestrel-crypto", mod="encrypt::verif_hdr_enc", props=["C01", "C05", "C06", "C07", "C08", "C13"], est_s=60,
+  desc="key_encrypt: handshake gets caller's keys + prologue 65676B10; payload key = fresh 32-byte CSPRNG draw when not supplied; refused key exchange => Err and NOTHING written/flushed/read; header = magic||128-byte handshake, flushed before chunks; file key = HKDF(empty, payload key, handshake hash, 32); chunk loop gets (file key, empty aad, 65536); its result is returned",
+  funcs=["encrypt::key_encrypt", "encrypt::write_err"], bounds="all key material; both caller-supplied and fresh ephemeral/payload keys; both outcomes of handshake and chunk loop", env=HDR_ENV, outside="")
+H(name="hdr_key_encrypt_write_fault", crate="kestrel-crypto", mod="encrypt::verif_hdr_enc", props=["C10"], est_s=60,
+  desc="key_encrypt: a failing header write => Err(IOWrite), chunk loop never runs", funcs=["encrypt::key_encrypt"], bounds="fault at header write 0 or 1", env=HDR_ENV, outside="")
+H(name="hdr_pass_encrypt", crate="kestrel-crypto", mod="encrypt::verif_hdr_enc", props=["C02", "C06", "C08"], est_s=60,
+  desc="pass_encrypt: key = scrypt(password, salt, 32768, 8, 1, 32); header = 65676B20||salt flushed before chunks; chunk loop gets (key, aad = magic, 65536)",
+  funcs=["encrypt::pass_encrypt"], bounds="passwords of 0..4 arbitrary bytes (incl. empty, non-ASCII), all salts", env=HDR_ENV, outside="password length > 4 (the code never inspects the password)")
+H(name="hdr_key_decrypt", crate="kestrel-crypto", mod="decrypt::verif_hdr_dec", props=["C01", "C03", "C05", "C06", "C09", "C13", "C04", "C12"], auto_props=["C09"], est_s=90,
+  desc="key_decrypt on ANY bytes: wrong magic => Err after <= 4 bytes, nothing decrypted/written; truncated header => IORead; handshake gets (recipient keys, the 4 bytes read as prologue, bytes 4..132); failed handshake => Err, nothing written/flushed; file key = HKDF(empty, payload key, handshake hash, 32); chunk loop gets (file key, empty aad, 65536) right after byte 132; Ok(sender) iff chunks Ok and sender = the authenticated key",
+  funcs=["decrypt::key_decrypt", "decrypt::valid_file_format", "decrypt::read_err"], bounds="every byte string of length 0..140 as file head", env=HDR_ENV, outside="")
+H(name="hdr_pass_decrypt", crate="kestrel-crypto", mod="decrypt::verif_hdr_dec", props=["C02", "C03", "C06", "C09", "C13"], auto_props=["C09"], est_s=90,
+  desc="pass_decrypt on ANY bytes: wrong magic / truncated header => Err before any key derivation or write; key = scrypt(password, bytes 4..36, 32768, 8, 1, 32) with constant cost parameters; chunk loop gets (key, aad = magic, 65536) right after byte 36",
+  funcs=["decrypt::pass_decrypt", "decrypt::valid_file_format"], bounds="every byte string of length 0..60 as file head; passwords of 0..4 bytes", env=HDR_ENV, outside="")
+H(name="dec_wrong_key_cs2", crate="kestrel-crypto", mod="decrypt::verif_hdr_dec", props=["C02", "C13"], est_s=200,
+  desc="decrypt_chunks under ANOTHER key than the file was sealed with (E-KDF: different password => different scrypt key): Err on the first chunk for every byte stream, zero writes/flushes",
+  funcs=DEC_FUNCS, bounds="chunk size 2, authentic file of 1..2 chunks, any stream of 0..70 bytes", env=[E_AEAD, E_ZERO, "E-KDF: scrypt is injective in the password (cryptographic assumption)"], outside="scrypt collisions")
+H(name="hdr_valid_file_format", crate="kestrel-crypto", mod="decrypt::verif_hdr_dec", props=["C09", "C06", "C03"], est_s=20, replay="playback",
+  desc="valid_file_format on any 0..8 bytes: AsymV1 iff 65676B10, PassV1 iff 65676B20, else Err; never a panic", funcs=["decrypt::valid_file_format"], bounds="all byte strings of length 0..8", env=[], outside="")
+
+# ------------------------------------------------------------------ H-NOISE
+NOISE_ENV = ["crate::sha256, hkdf_noise, x25519, chapoly_{encrypt,decrypt}_noise as UNINTERPRETED functions (record in the initiator run, replay in the responder run; X25519 replays the commuted pair: DH(a,pub b) = DH(b,pub a))", E_ZERO]
+H(name="noise_x_lockstep", crate="kestrel-crypto", mod="noise::verif_noise", props=["C01", "C05", "C06", "C08"], est_s=600, timeout=2400, mem_gb=12,
+  desc="HandshakeState::{init_x, write_message} trace == Noise_X pattern of the Noise spec (h0 = padded protocol name; MixHash(prologue); pre-message MixHash(rs); e; es = DH(e, rs); s sealed under es key nonce 0 AD h; ss = DH(s, rs); payload sealed under ss key nonce 0 AD h; message = e||enc s||enc payload; hash = h); read_message computes the same values from the message and returns (payload, sender static key, same hash)",
+  funcs=["noise::HandshakeState::init_x", "noise::HandshakeState::write_message", "noise::HandshakeState::read_message", "noise::HandshakeState::get_pubkey", "noise::SymmetricState::*", "noise::CipherState::*"],
+  bounds="all key material, prologue (4 bytes) and 32-byte payload; one handshake", env=NOISE_ENV, outside="the primitives themselves (C19); payloads other than 32 bytes")
+H(name="noise_dh_refusal", crate="kestrel-crypto", mod="noise::verif_noise", props=["C05"], est_s=200, timeout=1800,
+  desc="write_message: an all-zero DH result at es or ss => Err(DhError), nothing sealed under a key derived from it", funcs=["noise::HandshakeState::write_message"], bounds="refusal at es or at ss; all key material", env=NOISE_ENV, outside="which points orion refuses (trusted base)")
+H(name="noise_decrypt_any_len", crate="kestrel-crypto", mod="noise::verif_noise", props=["C09"], est_s=300, timeout=1800,
+  desc="noise_decrypt on a handshake message of ANY content and ANY length 0..140 with unconstrained primitives: never a panic; < 96 bytes => Err",
+  funcs=["noise_decrypt", "noise::HandshakeState::read_message"], bounds="message length 0..140", env=["primitives return unconstrained results (AEAD: Err or any plaintext of length ct-16; DH: Err or any 32 bytes)", E_ZERO], outside="messages > 140 bytes (<= 65535 accepted by the code)")
+
 # ------------------------------------------------------------------ scrypt (scrypt.rs), modular lockstep
 H(name="c18_salsa_equiv", crate="kestrel-crypto", props=["C18"], est_s=200,
   desc="salsa_xor(tmp,in,out): out = tmp' = Salsa20/8(tmp XOR in) as transcribed from RFC 7914 section 3, for ALL 2x16 input words",
@@ -133,6 +170,10 @@ H(name="c18_public_wrapper", crate="kestrel-crypto", props=["C18", "C02", "C15"]
 
 PROPERTIES = {
     "C18": {"claim": "", "outside": "", "assumptions": []},
+    "C05": {"claim": "", "outside": "", "assumptions": []},
+    "C13": {"claim": "", "outside": "", "assumptions": []},
+    "C12": {"claim": "", "outside": "", "assumptions": []},
+    "C15": {"claim": "", "outside": "", "assumptions": []},
     "C19": {"claim": "wrapper-level conformance: every exported primitive wrapper hands exactly its arguments to the orion primitive and returns exactly its result, for all inputs within the bounds; Noise nonce layout for all 2^64 counters",
             "outside": "that orion 0.17.8 implements RFC 8439/7748/5869/2104/FIPS 180-4 (trusted base; the repo's own KAT tests exercise it); forgery resistance, DH symmetry and base-point multiplication are mathematics of the primitive, not decidable by bounded checking",
             "assumptions": ["orion primitives are replaced by recorders with their documented error contract"]},
